@@ -5,6 +5,8 @@
 -/
 import Z80.Lemmas.TableRows
 import Z80.Lemmas.Pc
+import Z80.Lemmas.Plain
+import Z80.Lemmas.Block
 namespace Z80
 
 /-- does `dasm` produce text for the opcode byte `op`? -/
@@ -72,10 +74,43 @@ def walk (a : Arch) : Nat → UInt16 → UInt16
   | 0, addr => addr
   | n + 1, addr => walk a n (addr + (dasm a addr).2.toUInt16)
 
+theorem walk_succ' (a : Arch) (n : Nat) (addr : UInt16) :
+    walk a (n + 1) addr = walk a n addr + (dasm a (walk a n addr)).2.toUInt16 := by
+  induction n generalizing addr with
+  | zero => rfl
+  | succ n ih => show walk a (n + 1) _ = _; rw [ih]; rfl
+
+/-- the walk theorem: run `n` steps of straight-line code (no request pending, every instruction
+    recognised and not a transfer, and the listing of the bytes about to be executed has not been changed
+    by the stores so far); the PC after them is where the listing made from the initial state puts the
+    n-th instruction boundary -/
+theorem C15_walk (a : Arch) (n : Nat)
+    (h : ∀ k, k < n →
+      let s := iter (fun s => (stepArch s).1) k a
+      s.quiet ∧ recognised (s.bus.readByte s.reg.pc) = true ∧
+      transfers (decode s.bus s.reg.pc (firstByte s)).instr = false ∧
+      (dasm s s.reg.pc).2 = (dasm a s.reg.pc).2) :
+    (iter (fun s => (stepArch s).1) n a).reg.pc = walk a n a.reg.pc := by
+  induction n with
+  | zero => rfl
+  | succ n ih =>
+    have ih' := ih (fun k hk => h k (by omega))
+    obtain ⟨hq, hr, ht, hs⟩ := h n (by omega)
+    rw [iter_succ', walk_succ', ← ih']
+    generalize iter (fun s => (stepArch s).1) n a = s at *
+    have e : (stepArch s).1 = (dispatch s).1 := by rw [stepArch_quiet s hq]
+    rw [e, C15_step_advance s hq.2.2 hr ht, hs]
+
 /-- non-vacuity: LD BC,nn is recognised, three bytes, PC advances by three -/
 example :
     let a : Arch := { bus := { mem := #[0x01, 0x34, 0x12, 0x00] } }
     recognised 0x01 = true ∧ (dasm a 0).2 = 3 ∧ (dispatch a).1.reg.pc = 3 ∧ (dasm a 0).1 = "01 34 12 LD BC,$1234" := by
   decide +kernel
+
+/-- non-vacuity of the walk: LD BC,$1234 ; INC B ; NOP from address 0 -/
+example :
+    let a : Arch := { bus := { mem := #[0x01, 0x34, 0x12, 0x04, 0x00, 0x00] } }
+    walk a 3 0 = 5 ∧ (iter (fun s => (stepArch s).1) 3 a).reg.pc = 5 ∧ a.quiet := by
+  refine ⟨by decide +kernel, by decide +kernel, rfl, rfl, rfl⟩
 
 end Z80
